@@ -49,10 +49,23 @@ def dynamic_unions():
     return [Program(m, e, a, union=True) for m in DYNAMIC_UNIONS for e in ("<", ">") for a in (False, True)]
 
 
+def sandwiches():
+    """A partially filled bit-field unit, another member, bit fields of the same storage type again: every state the
+    readers/writers carry across a member boundary (k, q, k)."""
+    ps = []
+    i = 0
+    for k in ("b8_part", "b16_part"):
+        for q in ("inner", "anon_s", "named_u", "u8", "d_char", "a_u16_3", "e8"):
+            for al in (False, True):
+                ps.append(Program([k, q, k], "<>"[i % 2], al))
+                i += 1
+    return ps
+
+
 def reduced_programs(seed=0, sample=24):
     """Smaller quick set for the multi-run pipelines: every kind alone (both byte orders, both modes), ordered pairs of
     the reduced alphabet in both modes with the byte order alternating, a few seeded longer sequences."""
-    ps = singles() + dynamic_unions()
+    ps = singles() + dynamic_unions() + sandwiches()
     i = 0
     for a_ in REDUCED:
         for b_ in REDUCED:
@@ -71,7 +84,7 @@ def reduced_programs(seed=0, sample=24):
 def quick_programs(seed=0, sample=40):
     """Quick tier of the relational check: every kind alone (both byte orders, both modes), every ordered pair of the quick
     alphabet in both modes with the byte order alternating between pairs, seeded longer sequences."""
-    ps = singles() + dynamic_unions()
+    ps = singles() + dynamic_unions() + sandwiches()
     for i, p in enumerate(pairs(QUICK, endians=("<",), skip_heavy_aligned=True)):
         ps.append(p if (i // 2) % 2 == 0 else Program(p.kinds, ">", p.align))
     light = [k for k in KINDS if k not in HEAVY and k not in REJECTED and k not in EOF_KINDS]
@@ -83,7 +96,7 @@ def thorough_programs(seed=0, sample=300):
     """Thorough tier: every kind alone, all ordered pairs of the quick alphabet (heavy kinds included, aligned too), every
     kind paired with the cheap partners in both orders, seeded sequences of 3-6 kinds."""
     alpha = [k for k in KINDS if k not in REJECTED]
-    ps = singles() + dynamic_unions() + pairs(QUICK)
+    ps = singles() + dynamic_unions() + sandwiches() + pairs(QUICK)
     for k in alpha:
         for q in CHEAP_PARTNERS + ["char", "inner", "d_char"]:
             for seq in ((k, q), (q, k)):
